@@ -724,3 +724,106 @@ def c17(r):
         (m("t", 0), "C17.tao.year-month-day"), (m("f", 0), "C17.foto.year-month-day"), (m("tr", 5), "C17.tao.roundtrip"), (m("fr", 2), "C17.foto.roundtrip"),
         (pred(0), "C17.sanHui"), (pred(3), "C17.baJie"), (pred(4), "C17.baHui"), (pred(6), "C17.anWu"), (pred(9), "C17.yangGong"),
         (pred(11), "C17.zhaiSix"), (pred(12), "C17.zhaiTen")]}, per_kind=1)
+
+
+# --------------------------------------------------------------------- C14
+def tla_tuple_to_py(text):
+    return json.loads(text.replace("<<", "[").replace(">>", "]"))
+
+
+@plan("C14", "model_checking")
+def c14(r):
+    import random as _r
+    thorough = r.tier == "thorough"
+    r.rule = ("TLC model-checks MC_Holiday (state = record set; Fix with 1-2 segments over a 6-day universe with interleaved targets; "
+              "the four views partition the set, a Fix changes exactly the named days, workday stepping lands on a working day with |n| passed) "
+              "and %s of its depth-2 behaviours are replayed on the real HolidayUtil (VerifReset, Fix, raw records of the touched years, "
+              "a digest of all other records, the views of the touched years/targets, workday steps around the touched days). On the built-in "
+              "table: every day 2000-2027 by day (three accessors), every month, year and target view, Next(n, workday) from every day "
+              "2001-2026 for n in {+-1..+-15}, GetSalaryRate every day. The trace specification carries the record set, loaded from the raw "
+              "18-byte records. Distinct non-trivial case = distinct (day or view) query or distinct Fix behaviour." %
+              ("all" if thorough else "1500 seeded"))
+    r.assumptions += ["the raw record string exported under the verif tag is the ground truth of the table",
+                      "lunar month/day and the Qingming flag used by the pay-rate rule are the library's own (C01/C03)"]
+    r.build()
+    r.mc("MC_Holiday", "MC_Holiday")
+    leaves = r.export_edges("MC_Holiday", "MBT_Holiday")
+    if not thorough:
+        _r.Random(r.seed).shuffle(leaves)
+        leaves = sorted(leaves[:1500])
+    lines = []
+    for lf in leaves:
+        hist = tla_tuple_to_py(lf)
+        calls = []
+        for call in hist:
+            segs = []
+            for s in call:
+                if s[1] == 1:
+                    segs.append("rm:%d" % s[0])
+                else:
+                    segs.append("add:%d:%d:%d:%d" % (s[0], s[2], s[3], s[4]))
+            calls.append(";".join(segs))
+        lines.append("|".join(calls))
+    seqf = os.path.join(r.dir, "fixseqs.txt")
+    write_lines(seqf, lines)
+    r.cov["replayed_edges"] = len(lines)
+    ch_f = r.drive("c14fix", args={"seqs": seqf}, maxlines=900)
+    r.validate("Trace_Holiday", ch_f)
+    ch_v = r.drive("c14views", shards=1, maxlines=0)
+    r.validate("Trace_Holiday", ch_v)
+    ch_w = r.drive("c14work", maxlines=0)
+    r.validate("Trace_Holiday", ch_w)
+    r.sample_from([ch_f[0]])
+    r.cov["samples"] = [s[:300] for s in r.cov["samples"]] + lines[:2]
+    nq = 0
+    for c in ch_v + ch_w:
+        for line in open(c, encoding="utf-8"):
+            e = json.loads(line)
+            nq += len(e.get("days", [])) + len(e.get("months", [])) + len(e.get("rows", [])) + len(e.get("t", []))
+    r.cov["queries"] = nq
+    r.cov["distinct_nontrivial"] = nq + len(lines)
+    def fixmut(e):
+        if e["p"] != 0 or not e["after"]:
+            return False
+        e["after"][0][2] = 1 - e["after"][0][2]
+        return True
+    def fixrest(e):
+        e["rest"] = "0" * 16
+        return True
+    r.negctl("Trace_Holiday", ch_f[0], {"C14Fix": [(fixmut, "C14.fix.exact"), (fixrest, "C14.fix.others-unchanged")]})
+    def daymut(e):
+        if not e["days"]: return False
+        e["days"][0][2][2] = 1 - e["days"][0][2][2]
+        return True
+    def monthdrop(e):
+        for mth in e["months"]:
+            if len(mth[2]) > 1:
+                mth[2].pop(0)
+                return True
+        return False
+    def yearswap(e):
+        if len(e["year"][1]) < 2: return False
+        e["year"][1][0], e["year"][1][1] = e["year"][1][1], e["year"][1][0]
+        return True
+    def tgt(e):
+        for t in e["t"]:
+            if len(t[2]) > 1 and t[0] not in (20141001, 20151001, 20171001):
+                t[2].pop()
+                t[3].pop()
+                return True
+        return False
+    r.negctl("Trace_Holiday", ch_v[0], {"C14Views": [(daymut, "C14.byDay"), (monthdrop, "C14.byMonth"), (yearswap, "C14.byYear")],
+                                         "C14Targets": [(tgt, "C14.byTarget")]})
+    def wk(e):
+        for row in e["rows"]:
+            if row["p"] == 0 and row["nx"]:
+                row["nx"][0][1] = row["d"]
+                return True
+        return False
+    def sal(e):
+        for row in e["rows"]:
+            if row["p"] == 0 and "sal" in row:
+                row["sal"][0] = row["sal"][0] % 3 + 1
+                return True
+        return False
+    r.negctl("Trace_Holiday", ch_w[:4], {"C14Work": [(wk, "C14.workday."), (sal, "C14.salaryRate")]})
